@@ -42,13 +42,19 @@ Spectrum diagonalize(const Mat& H, double beta) {
     return sp;
 }
 
+Spectrum spectrum_from(const RVec& E, const Mat& U, double beta) {
+    Spectrum sp; sp.D = E.size(); sp.beta = beta; sp.E = E; sp.U = U; sp.E0 = E.minCoeff(); sp.bw.resize(sp.D); sp.Z = 0;
+    for (int a = 0; a < sp.D; ++a) { sp.bw(a) = std::exp(-beta * (sp.E(a) - sp.E0)); sp.Z += sp.bw(a); }
+    sp.w = sp.bw / sp.Z; return sp;
+}
 Mat to_eigenbasis(const Spectrum& sp, const Mat& O) { return sp.U.adjoint() * O * sp.U; }
 
-Lehmann1 gf_terms(const Spectrum& sp, const Mat& Ci, const Mat& CXj) {   // Ci, CXj in eigenbasis
+Lehmann1 gf_terms(const Spectrum& sp, const Mat& Ci, const Mat& CXj, const std::vector<char>* keep) {   // Ci, CXj in eigenbasis
     Lehmann1 L; int D = sp.D;
     for (int a = 0; a < D; ++a) for (int b = 0; b < D; ++b) {
         cd m = Ci(a, b) * CXj(b, a);
         if (std::abs(m) < 1e-300) continue;
+        if (keep && !(*keep)[a] && !(*keep)[b]) continue;
         L.R.push_back(m * (sp.w(a) + sp.w(b))); L.P.push_back(sp.E(b) - sp.E(a)); L.a.push_back(a); L.b.push_back(b);
     }
     return L;
@@ -68,20 +74,20 @@ Val gf_tau(const Spectrum& sp, const Mat& Ci, const Mat& CXj, double tau) {
     return r;
 }
 
-Val chi2(const Spectrum& sp, const Mat& A, const Mat& B, cd W) {
+Val chi2(const Spectrum& sp, const Mat& A, const Mat& B, cd W, const std::vector<char>* keep) {
     Val r; int D = sp.D; double beta = sp.beta;
     for (int a = 0; a < D; ++a) for (int b = 0; b < D; ++b) {
-        cd m = A(a, b) * B(b, a); if (std::abs(m) < 1e-300) continue;
+        cd m = A(a, b) * B(b, a); if (std::abs(m) < 1e-300) continue; if (keep && !(*keep)[a] && !(*keep)[b]) continue;
         cd t = m * dd2(beta, cd(-(sp.E(a) - sp.E0), 0), cd(-(sp.E(b) - sp.E0), 0) + W) / sp.Z;
         r.v += t; r.S += std::abs(t);
     }
     return r;
 }
 
-Val corr_tau(const Spectrum& sp, const Mat& A, const Mat& B, double tau) {
+Val corr_tau(const Spectrum& sp, const Mat& A, const Mat& B, double tau, const std::vector<char>* keep) {
     Val r; int D = sp.D; double beta = sp.beta;
     for (int a = 0; a < D; ++a) for (int b = 0; b < D; ++b) {
-        cd m = A(a, b) * B(b, a); if (std::abs(m) < 1e-300) continue;
+        cd m = A(a, b) * B(b, a); if (std::abs(m) < 1e-300) continue; if (keep && !(*keep)[a] && !(*keep)[b]) continue;
         cd t = m * std::exp(-(beta - tau) * (sp.E(a) - sp.E0) - tau * (sp.E(b) - sp.E0)) / sp.Z;
         r.v += t; r.S += std::abs(t);
     }
@@ -97,7 +103,7 @@ SparseRows sparsify(const Mat& O, double thr ) {
 }
 
 Val simplex4(const Spectrum& sp, const SparseRows& O1, const SparseRows& O2, const SparseRows& O3, const Mat& O4,
-                    cd W1, cd W2, cd W3) {
+                    cd W1, cd W2, cd W3, const std::vector<char>* keep) {
     Val r; int D = sp.D; double beta = sp.beta;
     for (int a = 0; a < D; ++a) {
         cd x0(-(sp.E(a) - sp.E0), 0);
@@ -110,6 +116,7 @@ Val simplex4(const Spectrum& sp, const SparseRows& O1, const SparseRows& O2, con
                 for (size_t id = 0; id < O3.rows[c].size(); ++id) {
                     int d = O3.rows[c][id].first; cd m4 = O4(d, a);
                     if (std::abs(m4) < 1e-13) continue;
+                    if (keep && !(*keep)[a] && !(*keep)[b] && !(*keep)[c] && !(*keep)[d]) continue;
                     cd m = m2 * O3.rows[c][id].second * m4;
                     cd x3 = cd(-(sp.E(d) - sp.E0), 0) + W1 + W2 + W3;
                     cd t = m * dd4(beta, x0, x1, x2, x3) / sp.Z;
